@@ -41,15 +41,20 @@ def edge_label(eid, ids):
     return eid if ids == 'int' else ('' if (ids == 'blank' and eid == 0) else 'e%d' % eid)
 
 
-def build_net(edges, ids='int'):
-    from tracklib.core import ENUCoords, Obs, Track, Network, Node, Edge
+def build_net(edges, ids='int', geo=False):
+    from tracklib.core import ENUCoords, GeoCoords, Obs, Track, Network, Node, Edge
+    P = (lambda v: GeoCoords(2.0 + v * 1e-3, 48.0, 0)) if geo else (lambda v: ENUCoords(v, 0, 0))      # geo: a network read in geographic coordinates
     net = Network()
     for (eid, s, t, o, w) in edges:
-        e = Edge(edge_label(eid, ids), Track([Obs(ENUCoords(s, 0, 0)), Obs(ENUCoords(t, 0, 0))]))
+        e = Edge(edge_label(eid, ids), Track([Obs(P(s)), Obs(P(t))]))
         e.orientation = o
         e.weight = w
-        net.addEdge(e, Node(s, ENUCoords(s, 0, 0)), Node(t, ENUCoords(t, 0, 0)))
+        net.addEdge(e, Node(s, P(s)), Node(t, P(t)))
     return net
+
+
+def is_geo(case):
+    return bool(case.get('pre')) and case['pre'][0] == 'enu'
 
 
 def arcs_of(edges):
@@ -89,7 +94,7 @@ def gen_dist(rng, n, tier):
     for k in range(n):
         g = gen_graph(rng, small=(k % 3 == 0))
         used = sorted({e[1] for e in g} | {e[2] for e in g})
-        cases.append({'edges': g, 'src': rng.choice(used), 'shared': rng.random() < 0.3, 'pre': rand_pre(rng), 'ids': rng.choice(['int', 'int', 'str', 'blank'])})
+        cases.append({'edges': g, 'src': rng.choice(used), 'shared': rng.random() < 0.3, 'pre': rand_pre(rng, True), 'ids': rng.choice(['int', 'int', 'str', 'blank'])})
     return cases
 
 
@@ -100,7 +105,15 @@ def use_subnet(net, case):
     if not pre:
         return
     nodes = sorted(net.NODES)
-    if pre[0] == 'sub':
+    if pre[0] == 'enu':
+        # a network read in geographic coordinates and projected to a local frame before (0), after a first search (1), or there and back (2): weights, orientations and topology are untouched
+        from tracklib.core import GeoCoords
+        if pre[2] == 1:
+            net.shortest_distance(nodes[0], nodes[-1]); net.shortest_distance(nodes[-1])
+        net.toENUCoords(GeoCoords(2.0, 48.0, 0))
+        if pre[2] == 2:
+            net.toGeoCoords(GeoCoords(2.0, 48.0, 0))
+    elif pre[0] == 'sub':
         sub = net.sub_network(nodes[pre[1] % len(nodes)], pre[2], verbose=False)
         sn = sorted(sub.NODES)
         if len(sn) >= 2:
@@ -111,12 +124,14 @@ def use_subnet(net, case):
         net.all_shortest_distances(cut=pre[2])
 
 
-def rand_pre(rng):
+def rand_pre(rng, enu=False):
+    if enu and rng.random() < 0.15:
+        return ['enu', 0, rng.choice([0, 1, 1, 2])]
     return rng.choice([None, None, None, ['sub', rng.randrange(12), rng.choice([1, 3, 8, 1e300])], ['all', 0, rng.choice([2, 8, 1e300])], ['prep', 0, rng.choice([0, 1, 3, 1e300])]])
 
 
 def run_dist(case):
-    net = build_net(case['edges'], case.get('ids', 'int'))
+    net = build_net(case['edges'], case.get('ids', 'int'), is_geo(case))
     use_subnet(net, case)
     res = {}
     reg = {} if case.get('shared') else None      # the optional output dictionary, reused across successive calls as the API allows
@@ -192,12 +207,12 @@ def gen_table(rng, n, tier):
     for k in range(n):
         g = gen_graph(rng, small=(k % 2 == 0))
         cut = rng.choice([0, 1, 2, 3, 5, 8, 13, 0.5, 2.5, 1e300])
-        cases.append({'edges': g, 'cut': cut, 'pre': rand_pre(rng), 'ids': rng.choice(['int', 'int', 'str', 'blank'])})
+        cases.append({'edges': g, 'cut': cut, 'pre': rand_pre(rng, True), 'ids': rng.choice(['int', 'int', 'str', 'blank'])})
     return cases
 
 
 def run_table(case):
-    net = build_net(case['edges'], case.get('ids', 'int'))
+    net = build_net(case['edges'], case.get('ids', 'int'), is_geo(case))
     use_subnet(net, case)
     d = net.all_shortest_distances(cut=case['cut'])
     net.DISTANCES = d
